@@ -4,7 +4,7 @@
 # suite there, runs the named checks (quick tier) against the copy, prints one line per check and removes the copy.
 patch=$(readlink -f "$1"); shift
 tests=0; if [ "$1" = "--tests" ]; then tests=1; shift; fi
-name=$(basename "$patch" .diff)
+name=$(basename "$patch" .diff); [ "$name" = "patch" ] && name=$(basename "$(dirname "$patch")")
 dir=$(mktemp -d /tmp/mut_${name}_XXXX)
 rsync -a --exclude .git --exclude __pycache__ /repo/ "$dir"/
 if ! (cd "$dir" && patch -p1 -s --no-backup-if-mismatch < "$patch" >/dev/null 2>&1); then echo "$name: PATCH-FAILED"; rm -rf "$dir"; exit 2; fi
